@@ -38,6 +38,7 @@ def families(tier):
         ("pair-lattice", lambda: (c for k, c in enumerate(fam.g1_pairs("quick")) if k % (4 if q else 2) == 0), 64),
         ("G3-corpus", lambda: fam.corpus_cases(tier, G3_Q, G3_T), 16),
         ("near-threshold", lambda: fam.near_threshold_cases(), 16),
+        ("composed", lambda: fam.composed_cases(tier), 8),  # several independent placements in one structure (chains A, B, C; also listed in reverse chain order)
         # one structure object with two models of different geometry, queried model 1, model 2, model 1 again: each answer is judged against its own model
         ("two-models", lambda: fam.two_model_cases(fam.g1_stack(tier), 37 if q else 11, 5), 8),
     ]
